@@ -25,9 +25,9 @@ P = {
  "C06": ("provenance of every scoping field of the built assertion/response, sign-then-store-then-rebuild typestate for both signatures, POST-only binding gate",
          "that the signatures verify cryptographically",
          "composite-literal field provenance + typestate + reject rows", "4 C06"),
- "C07": ("builder/struct-tag agreement for every schema type the peer reads back, coverage of identity-bearing fields by the builders, canonical escaping on every serialisation that is signed or re-parsed",
-         "actual round-trip equality, exclusive-c14n correctness",
-         "table agreement (Element() builders vs xml struct tags) + serialisation-settings provenance", "4 C07"),
+ "C07": ("writer/reader table agreement between every Element() builder and the xml struct tags that read its output back (element, attribute, character-data and child names with namespaces); string fields emitted verbatim and guarded only by their own emptiness; every slice emitted by one unconditional in-order loop; every field of the Response/Assertion types read by its builder; the default assertion maker copies session strings, groups and custom attributes verbatim under emptiness tests only; canonical escaping on every IdP serialisation; standalone trees declare the prefixes they use; the SP publishes the entity ID, ACS endpoint and encryption certificate it later insists on",
+         "the round trip itself for all XML 1.0 characters, signature methods and key types; exclusive-c14n, etree escaping and encoding/xml decoding correctness per code point; the encryption round trip (structural part under C08/C10); SP configurations with Intermediates",
+         "writer/reader table agreement + field provenance + loop-shape (dominance) analysis + serialisation-settings provenance + sibling agreement", "4 C07"),
  "C08": ("plaintext fallback only on os.ErrNotExist, ErrNotExist only when no certificate string was found, only ciphertext carries the assertion, fresh key/IV buffers filled from RandReader with the error checked, decrypt branch goes through the same validator with every error a reject",
          "confidentiality of RSA-OAEP/AES, absence of user data elsewhere in the form bytes",
          "reject rows + who-may-read + provenance of key/IV buffers", "4 C08"),
@@ -49,9 +49,9 @@ P = {
  "C14": ("html/template for every emitted form, no trusted-type casts, non-constant response body bytes derive from template output, endpoint scheme check on both location attributes of both endpoint types and on every endpoint-bearing metadata field",
          "html/template's contextual escaping, url.Parse internals",
          "type-level who-may-call + provenance + must-pass-through", "4 C14"),
- "C15": ("alias-struct Marshal/Unmarshal symmetry, no truncating float conversion on the duration path, millisecond rounding in every parse arm",
-         "all numeric round trips, metadata fixed point",
-         "table agreement + conversion-operand provenance", "4 C15"),
+ "C15": ("alias-struct Marshal/Unmarshal symmetry (shadow fields identical, initialised from and copied back to the real field on the decode-success path); the xsd:duration writer's and reader's unit tables agree with each other and with the designator each regexp group is tied to, integer arithmetic on |d| with the sign carried by the (-?) group, no float-to-integer conversion except of math.Round; RelaxedTime marshals Round(ms).UTC() in the xsd:dateTime layout and every parse arm stores Parse(...).Round(ms) under err == nil, layouts cover zoned and zone-less forms, non-matching text is an error; the endpoint normaliser returns its argument or \"\" and every call stores back into the same field; no metadata struct field is dropped by encoding/xml (unexported, xml:\"-\", name clash)",
+         "the numerical round trip itself over all int64 durations and instants, the set of strings time.Parse and the regexps admit, equality of re-parsed generated metadata (depends on the clock's resolution), the fixed point of arbitrary EntityDescriptor values",
+         "writer/reader table agreement + conversion-operand provenance + reject rows + struct-tag conflict analysis", "4 C15"),
  "C16": ("decode gates of both JWT codecs (allowed methods, key function, audience, issuer, marker), marker disjointness, expiry at mint, handler gates, claims provenance",
          "golang-jwt's signature and time validation",
          "reject-table comparison + sibling agreement + must-pass-through", "4 C16"),
